@@ -414,7 +414,7 @@ pub proof fn thm_tr_aggregate_bip340(res: Result<Signature<TR>, Error<TR>>, sp: 
         // what frost::aggregate / aggregate_custom guarantee (world-generic contract, contracts_tr/core_generic.vc)
         agg_result_is_w::<TR>(res, sp, shares, pk, detect, first),
         // the even-Y package pre_aggregate returns exists (witnessed by every execution of the hook: its verified contract)
-        exists|q: PublicKeyPackage<TR>| tr_pkp_even_is(pk, q),
+        tr_pkp_realisable(pk),
         // the coordinator's structural guards pass; no identity key / commitment; the group commitment is not the identity
         agg_pre_guard_err::<TR>(sp, shares@, pk, detect) is None,
         vk_pt(pk.verifying_key) != pt_id(), !items_have_identity::<TR>(sp_items::<TR>(sp)), tr_R(sp, vk_pt(pk.verifying_key)) != pt_id(),
@@ -583,7 +583,7 @@ pub proof fn thm_tr_untweaked_key_iff(p: ProjectivePoint, q: ProjectivePoint, m:
 
 // the premise of the world-generic aggregate contract holds for the Taproot suite whenever the even-Y package exists
 pub proof fn lemma_tr_keeps_ids(sp: SigningPackage<TR>, sh: BTreeMap<Identifier<TR>, crate::round2::SignatureShare<TR>>, pk: PublicKeyPackage<TR>)
-    requires exists|q: PublicKeyPackage<TR>| tr_pkp_even_is(pk, q)
+    requires tr_pkp_realisable(pk)
     ensures pre_aggregate_keeps_ids_at::<TR>(sp, sh, pk), commitment_hooks_unused::<TR>()
 {
     lemma_taproot_world();
